@@ -17,7 +17,7 @@ def archive_cases(seed, count, big):
 def hexlist(h):
     return '[' + '; '.join(str(int(h[i:i + 2], 16)) for i in range(0, len(h), 2)) + ']' if h != '-' else '[]'
 
-def coq_check(lines):
+def coq_check_shard(lines, name):
     vs, js = [], []
     for l in lines:
         parts = [p.strip() for p in l[2:].split('|')]
@@ -44,10 +44,10 @@ Definition jok (c : json * list Z) : bool := let '(j, b) := c in
 Fixpoint first_bad {A} (f : A -> bool) (i : nat) (l : list A) : option nat := match l with [] => None | c :: r => if f c then first_bad f (S i) r else Some i end.
 Eval vm_compute in (length vcases, first_bad vok 0 vcases, length jcases, first_bad jok 0 jcases).
 ''' % (';\n'.join(vs), ';\n'.join(js))
-    rc, out = coq_eval('codec', text, timeout=900)
+    rc, out = coq_eval(name, text, timeout=900)
     m = re.search(r'=\s*\((\d+)%?\w*,\s*(None|Some\s+(\d+))%?\w*,\s*(\d+)%?\w*,\s*(None|Some\s+(\d+))', out)
     if rc != 0 or not m:
-        return 0, 'coqc failed on Tab_codec.v: ' + out[-1200:], None
+        return 0, 'coqc failed on Tab_%s.v: ' % name + out[-1200:], None
     n = int(m.group(1)) + int(m.group(4))
     if m.group(2) != 'None':
         return n, None, [l for l in lines if l.startswith('V ')][int(m.group(3))]
@@ -85,9 +85,22 @@ def comm_runs(seed, tier):
             fails.append({'what': '%d handler executions for %d messages' % (len(xs), n * (60 if tier == 'quick' else 300)), 'config': cfg, 'cmd': r['cmd']})
     return nmsg, fails
 
+def coq_check(lines, tag='codec'):
+    """the table is sharded (vm_compute on very large list literals is slow) and the shards are evaluated in parallel"""
+    import concurrent.futures
+    size = 150
+    shards = [lines[i:i + size] for i in range(0, len(lines), size)] or [[]]
+    with concurrent.futures.ThreadPoolExecutor(max_workers=max(2, NCPU // 2)) as ex:
+        res = list(ex.map(lambda a: coq_check_shard(a[1], '%s_%d' % (tag, a[0])), enumerate(shards)))
+    n = sum(r[0] for r in res)
+    for r in res:
+        if r[1] or r[2]:
+            return n, r[1], r[2]
+    return n, None, None
+
 def run(tier, seed, replay=None):
     def tie(res):
-        count, big = (340, 20000) if tier == 'quick' else (3400, 300000)
+        count, big = (340, 20000) if tier == 'quick' else (3400, 60000)
         lines, err = archive_cases(seed, count, big)
         if lines is None:
             return {'ok': False, 'msg': 'codec harness failed', 'failures': [{'what': 'codec harness does not build/run', 'log': err}]}
@@ -108,10 +121,10 @@ def run(tier, seed, replay=None):
                 'tie': 'D: bytes produced by YGMOutputArchive for generated values = Wire.encode; Wire.decode of them returns the value and leaves the sentinel; handler-side byte consumption and header size measured through hook H1',
                 'extra': {'type_shapes': shapes, 'json_values': sum(1 for l in lines if l.startswith('J ')), 'messages_through_comm': nmsg}}
     def search():
-        lines, err = archive_cases(seed + 77, 1700, 300000)
+        lines, err = archive_cases(seed + 77, 1000, 60000)
         out = []
         if lines:
-            n, err, bad = coq_check(lines)
+            n, err, bad = coq_check(lines, 'codec_s')
             if bad:
                 out.append({'what': 'Wire.encode/decode disagree with the real archive', 'case': bad[:600]})
         nm, cf = comm_runs(seed + 77, 'thorough')
